@@ -9,16 +9,22 @@ Two bounded-exhaustive drivers on the REAL implementation:
     ``record_success`` / ``record_failure`` at every grid time, in all orders)
     are applied by a DFS with ``copy.deepcopy`` snapshots.  After every step:
       * the admitted set is checked against the policy's interval bound for
-        every pair of admitted requests (dyadic parameters only, where the
-        library's own float arithmetic is exact; tolerance 1e-6 tokens / 1 ns,
-        so only a whole extra admitted request is reported);
+        every pair of admitted requests (dyadic parameters, where the library's
+        own float arithmetic is exact; tolerance 1e-6 tokens / 1 ns, so only a
+        whole extra admitted request is reported);
       * the ``time_until_available`` contract is checked on copies: zero =>
         the immediate acquire succeeds; non-zero => no acquire succeeds at
         now, now+wait/2, now+wait-1ns; iterating "wait the returned duration"
         reaches an admitting instant within 4 waits.
-    Non-dyadic parameter sets (rate 3, window 0.1 s ...) are explored for the
-    time_until_available clauses only (they are self-consistency clauses of
-    the library's own answers and do not depend on exact float boundaries).
+    Non-dyadic parameter sets (rate 3, window 0.1 s ...) are explored mainly for
+    the time_until_available clauses (self-consistency of the library's own
+    answers).  Their interval bounds are checked only in forms that cannot be
+    blurred by float rounding: token/leaky/sliding/adaptive with the same
+    1e-6 token / 1 ns slack (float error is ~1e-15 relative), fixed windows
+    only alignment-free (<= N at one instant, <= 2N within W - 1 ns).
+    Modes: plain (try_acquire only), probed (the policy itself is asked
+    time_until_available before every try_acquire, as RateLimitedEntity does),
+    queries (bare time_until_available calls are ops of the alphabet).
 
 (2) ``entity``: RateLimitedEntity (all five policies), Inductor,
     NullRateLimiter and DistributedRateLimiter (zero-latency KVStore) inside a
@@ -37,7 +43,7 @@ from __future__ import annotations
 import copy
 import time
 
-from mc.evidence import Run, digest
+from mc.evidence import Run
 from mc.harness import (Event, Fwd, Instant, Rec, Simulation, pmap, rotate,
                         run_guarded)
 
@@ -51,7 +57,8 @@ S = 1_000_000_000
 TOL_TOKENS = 1e-6
 TOL_NS = 1
 MAX_WAITS = 4  # "within a few steps"
-QUERIES_SHORTER = 2  # mode 'queries' (bare time_until_available calls in the alphabet) runs 2 ops shorter
+# mode 'queries' (bare time_until_available calls in the alphabet) runs this many ops shorter
+QUERIES_SHORTER = {"quick": 2, "thorough": 3}
 
 CLASSNAME = {"token": "TokenBucketPolicy", "leaky": "LeakyBucketPolicy",
              "sliding": "SlidingWindowPolicy", "fixed": "FixedWindowPolicy",
@@ -261,8 +268,7 @@ class PolicyRunner:
                 self.rates.append((t_ns, pol.current_rate))
             if ok:
                 self.admitted.append(t_ns)
-                if self.dyadic:
-                    out.extend(self.check_bound())
+                out.extend(self.check_bound())
             else:
                 self.denied += 1
         elif kind == "tua":
@@ -316,27 +322,38 @@ class PolicyRunner:
                              f"{cnt} requests admitted in [{a[i]}ns, {tj}ns]; bound capacity + rate x length "
                              f"= {cap} + {rate} x {(tj - a[i]) / S}s = {lim}")]
         elif k == "leaky":
-            iv = round(S / sp[1])
+            iv = S / sp[1]  # exact integer for dyadic rates; real-valued otherwise (1 ns + 1e-3 slack)
             for i in range(j - 1, -1, -1):
                 need = (j - i) * iv
-                if (tj - a[i]) + TOL_NS < need:
+                if (tj - a[i]) + TOL_NS + 1e-3 < need:
                     return [(f"{self.cls}/bound/spacing",
                              f"admitted at {a[i]}ns and {tj}ns ({j - i} interval(s) apart in admission order): "
                              f"spacing {tj - a[i]}ns < {need}ns = {j - i} x 1/rate")]
         elif k == "sliding":
-            w, n = round(sp[1] * S), sp[2]
+            w, n = int(sp[1] * S), sp[2]  # the window in whole ns, as Instant arithmetic truncates it
             for i in range(j - n, -1, -1):
                 if tj - a[i] < w:
                     return [(f"{self.cls}/bound/window",
                              f"{j - i + 1} requests admitted in [{a[i]}ns, {tj}ns] (length {tj - a[i]}ns "
                              f"< window {w}ns); max_requests={n}")]
         elif k == "fixed":
-            n, w = sp[1], round(sp[2] * S)
-            same = [x for x in a if x // w == tj // w]
-            if len(same) > n:
-                return [(f"{self.cls}/bound/aligned-window",
-                         f"{len(same)} requests admitted in the aligned window "
-                         f"[{(tj // w) * w}ns, {(tj // w + 1) * w}ns): {same}; requests_per_window={n}")]
+            n, w = sp[1], int(sp[2] * S)
+            if self.dyadic:
+                same = [x for x in a if x // w == tj // w]
+                if len(same) > n:
+                    return [(f"{self.cls}/bound/aligned-window",
+                             f"{len(same)} requests admitted in the aligned window "
+                             f"[{(tj // w) * w}ns, {(tj // w + 1) * w}ns): {same}; requests_per_window={n}")]
+            else:
+                # non-dyadic W: which window a boundary instant belongs to is a float-rounding question;
+                # only alignment-free consequences are checked: one instant lies in one window, and more
+                # than 2N requests need three windows, i.e. a span of at least W - 1 ns
+                same = [x for x in a if x == tj]
+                if len(same) > n:
+                    return [(f"{self.cls}/bound/same-instant",
+                             f"{len(same)} requests admitted at the single instant {tj}ns; "
+                             f"requests_per_window={n}")]
+                w -= 1
             for i in range(j - 2 * n, -1, -1):
                 if tj - a[i] < w:
                     return [(f"{self.cls}/bound/window-length",
@@ -442,8 +459,8 @@ DYADIC_SPECS = [
 ]
 ADAPTIVE_SPECS = [
     (("adaptive", 2.0, 1.0, 4.0, 1.0, 0.5, 1.0), (0, 1, 2), 5, 6),
-    (("adaptive", 2.0, 1.0, 4.0, 2.0, 0.5, 1.0), (0, 1, 3), 5, 6),
-    (("adaptive", 4.0, 2.0, 4.0, 1.0, 0.25, 0.5), (0, 1, 2), 5, 6),
+    (("adaptive", 2.0, 1.0, 4.0, 2.0, 0.5, 1.0), (0, 1, 3), 5, 5),
+    (("adaptive", 4.0, 2.0, 4.0, 1.0, 0.25, 0.5), (0, 1, 2), 5, 5),
 ]
 NONDYADIC_SPECS = [
     (("token", 1.0, 3.0, None), (0, 1, 2, 3), 5, 7),
@@ -465,8 +482,10 @@ def run_policy_driver(run, name, table, dyadic, tier, seed, modes, eps=(-1, 0, 1
     bounds = {"specs": [], "modes": modes,
               "mode_meaning": "plain: try_acquire only; probed: the policy itself is asked time_until_available "
                               "before every try_acquire; queries: bare time_until_available calls are ops of the "
-                              f"alphabet (sequences {QUERIES_SHORTER} ops shorter)", "grid": "k/2 x (1/rate | W) for k in halves, each +eps ns",
-              "eps_ns": list(eps), "interval_bounds_checked": dyadic,
+                              f"alphabet (sequences {QUERIES_SHORTER[tier]} ops shorter)", "grid": "k/2 x (1/rate | W) for k in halves, each +eps ns",
+              "eps_ns": list(eps),
+              "interval_bounds": ("exact (aligned fixed windows)" if dyadic else
+                                  "with 1e-6 token / 1 ns slack; fixed window: alignment-free clauses only"),
               "tolerance": f"{TOL_TOKENS} tokens / {TOL_NS} ns", "max_waits": MAX_WAITS}
     for (spec, halves, dq, dt) in table:
         depth = dq if tier == "quick" else dt
@@ -476,7 +495,7 @@ def run_policy_driver(run, name, table, dyadic, tier, seed, modes, eps=(-1, 0, 1
         for mode in modes:
             kinds, dm = base_kinds, depth
             if mode == "queries":
-                kinds, dm = base_kinds + ("tua",), max(1, depth - QUERIES_SHORTER)
+                kinds, dm = base_kinds + ("tua",), max(1, depth - QUERIES_SHORTER[tier])
             for gi in range(len(grid)):
                 for k in kinds:
                     jobs.append((spec, dyadic, grid, dm, mode, kinds, (k, gi)))
@@ -640,8 +659,8 @@ def entity_oracle(ekind, cap, arrivals, obs, dyadic=True):
         out.append((f"{comp}/stall/queue-not-drained",
                     f"{obs['queue_depth']} request(s) still queued at the horizon; forwarded {obs['sink']}"))
     # forwarded times respect the wrapped policy's bound (dyadic policies only)
-    if ekind[0] == "rle" and dyadic and not out:
-        chk = PolicyRunner(tuple(ekind[1]), True)
+    if ekind[0] == "rle" and not out:
+        chk = PolicyRunner(tuple(ekind[1]), dyadic)
         if chk.kind != "adaptive":
             for (t, _ty, _tag) in obs["sink"]:
                 chk.admitted.append(t)
@@ -776,7 +795,8 @@ def main(tier, seed, only=None):
                     "one real Simulation run; non-trivial = at least one request was queued or dropped; "
                     "states/outcomes = distinct (forward log, dropped, queue depth) observations"),
               assumptions=["policies are called with non-decreasing times (simulated time is monotone)",
-                           "interval bounds are checked for dyadic parameters only (float arithmetic exact); "
+                           "interval bounds are exact for dyadic parameters (float arithmetic exact) and alignment-free "
+                           "/ slack-only for non-dyadic ones; "
                            "tolerance 1e-6 tokens / 1 ns; fixed windows are aligned to multiples of W from t=0",
                            "adaptive bound uses the largest rate in force over the closed interval (including "
                            "the rate that held immediately before its start)",
@@ -792,7 +812,7 @@ def main(tier, seed, only=None):
         ("policy-adaptive", lambda: run_policy_driver(run, "policy-adaptive", ADAPTIVE_SPECS, True, tier, seed,
                                                       modes, eps=(-1, 0, 1) if tier != "quick" else (0, 1))),
         ("policy-nondyadic", lambda: run_policy_driver(run, "policy-nondyadic", NONDYADIC_SPECS, False, tier,
-                                                       seed, ["plain"])),
+                                                       seed, modes)),
         ("entity", lambda: run_entity_driver(run, "entity", ENTITY_KINDS_DYADIC,
                                              ENTITY_TIMES if tier == "quick" else ENTITY_TIMES_THOROUGH,
                                              (0, 1, 2), (0, 1, 2), 4 if tier == "quick" else 5, seed, 64 * S)),
